@@ -173,6 +173,40 @@ def gen_ops(tier, rng, wins):
     for _ in range(nmut if wins else 0):
         n, h = wins[rng.below(len(wins))]
         add(mutate(rng, n, h), 'mutated')
+    # (e) directed prefix stuffing: real instructions of every length L, padded in front with 14-L .. 17-L redundant legacy /
+    #     segment / operand-size prefixes so that the total sits on the architectural 15-byte limit (14, 15, 16, 17 bytes), in
+    #     several mixes, with the REX byte kept adjacent to the opcode, and with REX-placement variants (prefixes after the REX,
+    #     a second REX in front).  Targets the `len(src) > 15` cap, the 14-slot inst.Prefix array and the "too long" returns.
+    bylen = collections.defaultdict(list)
+    for n, h in wins:
+        bylen[n].append(h[:2 * n])
+    SEG = [0x26, 0x2E, 0x36, 0x3E]
+    mixes = [lambda k: [SEG[rng.below(4)] for _ in range(k)],                                   # ignored-in-64-bit segment overrides
+             lambda k: [0x2E] * k,
+             lambda k: [rng.choice([0x26, 0x2E, 0x36, 0x3E, 0x64, 0x65]) for _ in range(k)],    # incl. FS/GS
+             lambda k: [rng.choice([0x66, 0x67, 0xF2, 0xF3, 0xF0] + SEG) for _ in range(k)],    # anything legacy
+             lambda k: [0x66] * k,
+             lambda k: [0x67] * (k // 2) + [SEG[rng.below(4)] for _ in range(k - k // 2)]]
+    per_len = 2500 if full else 250
+    for L in sorted(bylen):
+        pool = bylen[L]
+        for _ in range(min(per_len, 4 * len(pool))):
+            ins = bytes.fromhex(pool[rng.below(len(pool))])
+            for total in (14, 15, 16, 17):
+                k = total - L
+                if k < 0:
+                    continue
+                pre = bytes(mixes[rng.below(len(mixes))](k))
+                add((pre + ins).hex(), 'stuffed')
+                v = rng.below(4)
+                if v == 0 and 0x40 <= ins[0] <= 0x4F and k > 0:          # prefixes between REX and opcode (REX then not adjacent)
+                    add((ins[:1] + pre + ins[1:]).hex(), 'stuffed-rex')
+                elif v == 1 and k > 0:                                    # an extra REX in front of / behind the stuffing
+                    rex = bytes([0x40 + rng.below(16)])
+                    add((pre[:-1] + rex + ins).hex(), 'stuffed-rex')
+                    add((rex + pre[:-1] + ins).hex(), 'stuffed-rex')
+                elif v == 2 and k > 0:                                    # stuffing followed by random tail instead of the real one
+                    add((pre + ins[:1 + rng.below(L)] + bytes(rng.below(256) for _ in range(4))).hex()[:34], 'stuffed-rex')
     # (c) systematic short strings and random strings <= 16 bytes
     for a in range(256):
         add(f'{a:02x}', 'all1')
